@@ -750,7 +750,10 @@ func (a *snapRun) saveConc(rec *snapRec, rest []Op) {
 			return
 		}
 		s.Release(tk)
-		if a.doneSeen == before {
+		if _, mutating, _, _ := a.inst.DB.VerifFlags(); a.doneSeen == before && !mutating {
+			// "as of one instant": an instant between two commands. While a write command is between its first and
+			// its last keyspace step the dataset is not one a snapshot may hold (commands are atomic); the state copy
+			// waits for such commands and holds new ones back, so with it in place no such state can be copied.
 			rec.window = append(rec.window, a.dump())
 		}
 	}
